@@ -34,6 +34,7 @@ fn life_cfg(heartbeat: u16) -> LifeCfg {
         write_faults: false,
         read_faults: false,
         heartbeat,
+        explicit_drop_after_server_cancel: false,
     }
 }
 
